@@ -247,7 +247,7 @@ def _builtins_dict():
     b.update(
         __import__=_import_hook, len=sc.sym_len, isinstance=sc.sym_isinstance, str=sc.sym_str,
         dict=SymDict, set=SymSet, frozenset=SymSet, hash=sc.sym_hash, float=sc.sym_float, open=stubs.stub_open,
-        int=sc.sym_int, ord=sc.sym_ord,
+        int=sc.sym_int, ord=sc.sym_ord, print=sc.sym_print,
         __sym_fmt__=sc.sym_fmt, __sym_dict__=SymDict, __sym_set__=SymSet, __sym_in__=sc.sym_in,
         __sym_join__=sc.sym_join, __sym_repr__=sym_repr, __sym_strbase__=stubs.SymStrBase,
         __sym_format__=sym_format, __sym_items__=sym_items, __sym_strcall__=sym_strcall, __sym_fmtcall__=sym_fmtcall,
